@@ -173,6 +173,9 @@ fn budget(prop: &str, tier: &str, seed: u64, scale: f64) -> Budget {
             sweeps.push(sweeps::c05_short_streams(!quick, !quick && checked));
             sweeps.push(sweeps::c05_base256_lengths(seed, if quick { 600 } else { 1600 }));
             if checked {
+                sweeps.push(sweeps::c05_string_path_streams());
+            }
+            if checked {
                 sweeps.push(sweeps::small_geometry("C05", if quick { 200 } else { 1300 }, if quick { 40 } else { 150 }));
                 sweeps.push(sweeps::dimension_aliases("C05", seed));
             }
